@@ -235,7 +235,11 @@ impl Scenario for Twin {
                     ..Default::default()
                 };
                 let ix = IndexDef { name: "ixd".into(), table: "t0".into(), unique: false, cols: vec![("c1".into(), None, false)] };
-                let index_first = rng.chance(1, 2);
+                // growth variant: short keys when the index is created (and spilled), much longer keys
+                // afterwards, enough of them to fill leaves (page sizing must not depend on the strings
+                // that happened to be stored at spill time)
+                let grow = self.sw.big_rows >= 80 && rng.chance(1, 2);
+                let index_first = !grow && rng.chance(1, 2);
                 self.setup.push(Op::create_table(def.clone()));
                 if index_first {
                     self.setup.push(Op::create_index(ix.clone()));
@@ -246,7 +250,13 @@ impl Scenario for Twin {
                     let k = (n - start).min(1 + rng.usize(40));
                     let rows = (start..start + k)
                         .map(|i| {
-                            let key = if rng.chance(1, 12) { Lit::Null } else { Lit::Str(format!("k{:03}", if rng.chance(1, 8) { rng.usize(n) } else { (i * 7) % n })) };
+                            let key = if rng.chance(1, 12) {
+                                Lit::Null
+                            } else if grow {
+                                Lit::Str(format!("{}", (i * 7) % 60))
+                            } else {
+                                Lit::Str(format!("k{:03}", if rng.chance(1, 8) { rng.usize(n) } else { (i * 7) % n }))
+                            };
                             vec![Lit::Int(i as i64), key, Lit::Int(rng.range(0, 5))]
                         })
                         .collect();
@@ -255,6 +265,20 @@ impl Scenario for Twin {
                 }
                 if !index_first {
                     self.setup.push(Op::create_index(ix));
+                }
+                if grow {
+                    let mut id = n + 1000;
+                    for _ in 0..18 {
+                        let rows = (0..10)
+                            .map(|_| {
+                                id += 1;
+                                vec![Lit::Int(id as i64), Lit::Str(format!("zlongkey-{:03}", id % 1000)), Lit::Int(rng.range(0, 5))]
+                            })
+                            .collect();
+                        self.setup.push(Op::insert("t0", &[], rows));
+                    }
+                    self.setup.push(Op::new(Kind::Probe, "SELECT * FROM t0 WHERE c1 >= 'z' ORDER BY c1, c0, c2".into()).fault("total"));
+                    self.setup.push(Op::new(Kind::Probe, "SELECT c0 FROM t0 WHERE c1 = 'zlongkey-100'".into()));
                 }
             }
             self.setup.reverse();
